@@ -96,6 +96,91 @@ def currents_func(a):
     return lambda t, cur=cur: dict(cur)
 
 
+EPS_FORMS = ["constant", "per-site", "per-site-norm", "per-site-sum", "vectorized", "time-dependent", "time-dependent-vectorized"]
+
+
+def make_epsilon(a):
+    """epsilon == 1 on the whole film, expressed in different API forms; positions are in the device's length units.  The film of
+    fresh_device is the box |x| <= 2.5, |y| <= 1.5 (minus, for 'ring', the disc of radius 0.6 about (0.2, 0.1)); OFF the film the
+    functions return values != 1 (so that an evaluation at wrong positions, or of an aggregate, shows)."""
+    form = a["eps_form"]
+    ring = a.get("dev") == "ring"
+
+    def inside(x, y):
+        ok = (np.abs(x) <= 2.5 + 1e-9) & (np.abs(y) <= 1.5 + 1e-9)
+        if ring:
+            ok = ok & ((x - 0.2) ** 2 + (y - 0.1) ** 2 >= 0.55 ** 2)
+        return ok
+
+    if form == "constant":
+        return 1.0
+    if form == "per-site":            # called once per site with r = (x, y)
+        def eps(r):
+            return 1.0 if inside(r[0], r[1]) else -0.5
+        return eps
+    if form == "per-site-norm":       # reduces its argument: fine for one position, an aggregate for an (n, 2) array
+        def eps(r):
+            if ring and (r[0] - 0.2) ** 2 + (r[1] - 0.1) ** 2 < 0.55 ** 2:
+                return 0.0
+            return 1.0 if np.linalg.norm(r) < 3.0 else 0.0
+        return eps
+    if form == "per-site-sum":
+        def eps(r):
+            return 1.0 if float(np.sum(np.asarray(r) ** 2)) < 9.0 else -1.0
+        return eps
+    if form == "vectorized":
+        def eps(r, *, vectorized=True):
+            r = np.atleast_2d(r)
+            return np.where(inside(r[:, 0], r[:, 1]), 1.0, -0.5)
+        return eps
+    if form == "time-dependent":      # keyword t: re-evaluated at every step
+        def eps(r, *, t):
+            return 1.0 if inside(r[0], r[1]) else 1.0 - 1.5 * min(1.0, 0.25 + t)
+        return eps
+    if form == "time-dependent-vectorized":
+        def eps(r, *, t, vectorized=True):
+            r = np.atleast_2d(r)
+            return np.where(inside(r[:, 0], r[:, 1]), 1.0, 0.5 - min(1.0, t))
+        return eps
+    raise ValueError(form)
+
+
+def stationary_eps_run(tdgl, a, tmp):
+    """The uniform state with epsilon == 1 expressed as `eps_form`, on a NEW device with coherence length a['xi'] and mesh size
+    a['mel'].  The precondition (the function is 1 at every site of the film, at all times) is asserted here."""
+    kind = a.get("dev", "film")
+    dev = fresh_device(tdgl, kind, xi=a.get("xi", 1.0), gamma=a.get("gamma", 10.0))
+    dev.make_mesh(max_edge_length=a.get("mel", 0.8), smooth=a.get("smooth", 0))
+    f = make_epsilon(a)
+    pts = float(dev.coherence_length.magnitude) * np.asarray(dev.mesh.sites)
+    discriminates = None
+    if callable(f):
+        form = a["eps_form"]
+        for t in (0.0, 0.3, 5.0):
+            kw = {"t": t} if form.startswith("time-dependent") else {}
+            vals = np.asarray(f(pts, **kw)) if "vectorized" in form else np.array([float(f(r, **kw)) for r in pts])
+            if not np.all(vals == 1.0):
+                raise RuntimeError(f"stationary_eps_run: epsilon form {form} is not 1 on the film (precondition of C17)")
+        if form.startswith("per-site"):
+            # does the function distinguish 'called once per site' from 'called once with all positions'?
+            try:
+                agg = np.asarray(f(pts), dtype=float)
+                discriminates = bool(not (agg.shape in ((), (1,), (len(pts),)) and np.all(agg == 1.0)))
+            except Exception:
+                discriminates = None      # the aggregate call raises: an implementation has to fall back to per-site calls
+        if form.startswith("time-dependent"):
+            # does the function distinguish the positions in length units from the dimensionless mesh coordinates?
+            m = np.asarray(dev.mesh.sites)
+            vals = np.asarray(f(m, t=0.3)) if "vectorized" in form else np.array([float(f(r, t=0.3)) for r in m])
+            discriminates = bool(not np.all(vals == 1.0))
+    t = stationary_run(tdgl, a, tmp, dev=dev)
+    t["eps_form"] = a["eps_form"]
+    t["xi"] = a.get("xi", 1.0)
+    t["mel"] = a.get("mel", 0.8)
+    t["discriminates"] = discriminates
+    return t
+
+
 def solve_args(tdgl, a, out):
     opts = tdgl.SolverOptions(
         solve_time=a["solve_time"], dt_init=a.get("dt", 2.0 ** -6), dt_max=a.get("dt_max", 0.125), adaptive=a.get("adaptive", False),
@@ -104,6 +189,8 @@ def solve_args(tdgl, a, out):
         current_units=a.get("current_units", "uA"), terminal_psi=a.get("terminal_psi", 0.0),
         screening_tolerance=a.get("screening_tol", 1e-3))
     kw = {}
+    if a.get("eps_form"):
+        kw["disorder_epsilon"] = make_epsilon(a)
     f = currents_func(a)
     if f is not None:
         kw["terminal_currents"] = f if a.get("current_ramp") else dict(a["currents"])      # a dict may omit terminals (they carry no current)
